@@ -372,6 +372,7 @@ def doc_call(realm, kit, op):
     """One document-level call on a kit = (ctx, xml_parser, xml_serializer,
     json_parser, json_serializer). Returns a canonical, comparable value."""
     from xsdata.exceptions import ParserError, SerializerError, XmlContextError
+    from xsdata.formats.dataclass.parsers.config import ParserConfig
 
     ctx, xp, xs, jp, js = kit
     k = op["k"]
@@ -382,9 +383,11 @@ def doc_call(realm, kit, op):
             return {"json": js.render(realm.obj(op["toks"]))}
         if k == "xml_parse":
             cls = None if op["c"] is None else realm.cls(op["c"])
+            xp.config = ParserConfig(**op.get("cfg", {}))
             return {"obj": repr(xp.from_string(op["doc"], cls))}
         if k in ("json_parse", "json_parse_any"):
             cls = None if op.get("c") is None else realm.cls(op["c"])
+            jp.config = ParserConfig(**op.get("cfg", {}))
             return {"obj": repr(jp.from_string(op["doc"], cls))}
         if k == "reset":
             ctx.reset()
